@@ -23,9 +23,13 @@ PROP = {
                   "or identifier with another client and rejected ones must change nothing. Separately, "
                   "registries built so that the owner of a request is known by construction (nested networks at "
                   "arbitrary prefix lengths, decoys, exact address, ClientID, lease MAC; drawn insertion order). "
+                  "The part 'effective' (package dnsforward) decides the second sentence of the statement on real "
+                  "requests: global and per-client filtering / safe browsing / parental control (checker doubles) / "
+                  "blocked services with pause schedules, clients known by IP, CIDR, lease MAC and ClientID; a request "
+                  "must be blocked exactly when the level in force (own iff opted out of the global one) blocks it. "
                   "Exploration: no absence claim.",
-    "level_note": "Sequential behaviour of client.Storage only: the HTTP layer of package home "
-                  "(/control/clients/*) is not driven, concurrency is C05's subject. Trusts net/netip for "
+    "level_note": "Sequential behaviour only; concurrency is C05's subject. Safe search per client is not "
+                  "part of the 'effective' part. Trusts net/netip for "
                   "network containment.",
     "plain": [],
     "shards": (2, 16),
